@@ -1,4 +1,153 @@
+import LdarModel.Model.Propagate
+import LdarModel.Generated.Levels
 import LdarModel.Driver.Proto
-/- driver stub: replaced by the component's real driver -/
-open LdarModel.Proto
-def main : IO Unit := runDriver (fun (_ : Unit) (_ : List String) => ((), "bad-op")) ()
+/-
+Driver for the virtual-world propagation model (C15).  State = the input files being assembled.
+  reset                                   -> ok      (forget everything)
+  methods [M1,M2]                         -> ok
+  g  <key> <val>                          -> ok      global value of a plain propagating parameter
+  gm <method++param> <val>                -> ok      global value of a method-specific parameter
+  flags <hasTypes> <sitesHaveEquip> <typesHaveEquip> <hasSources>   -> ok
+  type <name> <equip> <cells>             -> ok      a row of the site type file
+  site <id> <type> <equip> <cells>        -> ok      a row of the sites file
+  eq   <name> <cells>                     -> ok      a row of the equipment file (all cells after the first column)
+  src  <component> <id> <repairable> <cells> -> ok   a row of the sources file
+  build [i0,i1,…]                         -> the world built from the picked rows of the sites file,
+                                             or `reject:<reasons>` where the code exits
+  resolve <global> [l1,l2,…]              -> value in effect after the chain (`resolve`)
+  round <num> <den>                       -> Python round (half to even)
+  strip <column>                          -> component type of an equipment column
+  unprefix <prefix> <key>                 -> `1`/`0` (prefix in key) and the un-prefixed key
+val   = -  |  t<int>  |  q<num>_<den>
+equip = -  (blank)  |  #<k>  |  @<raw>  with `|` standing for `,`
+cells = [[key,val],…]
+The key tables are `Generated.Levels.tables`.
+-/
+open LdarModel LdarModel.Propagate LdarModel.Proto
+
+structure DrvState where
+  methods : List String := []
+  g : Dict := []
+  gm : Dict := []
+  files : Files := { hasTypes := false, types := [], sitesHaveEquip := false, typesHaveEquip := false,
+                     sites := [], equipment := [], sources := none }
+  srcRows : List SrcRow := []
+
+def parseVal (s : String) : Option PV :=
+  if s = "-" then some .nul
+  else match s.toList with
+    | 't' :: rest => (String.ofList rest).toInt?.map PV.tok
+    | 'q' :: rest =>
+      match (String.ofList rest).splitOn "_" with
+      | [n, d] => do
+        let n ← n.toInt?
+        let d ← d.toNat?
+        if d = 0 then none else some (.num ((n : Rat) / (d : Rat)))
+      | _ => none
+    | _ => none
+
+def parseCell (s : String) : Option (String × PV) := do
+  match ← splitTop s with
+  | [k, v] => (parseVal v).map (fun v => (k, v))
+  | _ => none
+
+def parseCells (s : String) : Option Row := listOf? parseCell s
+
+def parseEquip (s : String) : Option EquipSpec :=
+  if s = "-" then some .bad
+  else match s.toList with
+    | '#' :: rest => (String.ofList rest).toNat?.map EquipSpec.count
+    | '@' :: rest => some (.named (String.ofList (rest.map (fun c => if c = '|' then ',' else c))))
+    | _ => none
+
+def strList? (s : String) : Option (List String) := splitTop s
+
+def showPV : PV → String
+  | .nul => "-"
+  | .tok i => s!"t{i}"
+  | .num q => s!"q{q.num}_{q.den}"
+
+def showPVs (l : List PV) : String := ";".intercalate (l.map showPV)
+
+def showSource (s : SourceEff) : String :=
+  s!"{s.sid}={showBool s.rep}/{showPV s.ers}/{showPV s.epr}/{showPV s.dur}/{showPV s.multi}/{showPV s.rd}/{showPV s.rc}/{showPVs s.spatial}/{showPVs s.temporal}"
+
+def showComp (c : CompEff) : String := c.cid ++ ":" ++ ",".intercalate (c.sources.map showSource)
+
+def showGroup (g : GroupEff) : String :=
+  g.gid ++ "~" ++ showPVs g.times ++ "~" ++ showPVs g.costs ++ "~" ++ "&".intercalate (g.comps.map showComp)
+
+def showSite (s : SiteEff) : String :=
+  s.sid ++ "~" ++ s.stype ++ "~" ++ showPVs s.freq ++ "~" ++ showPVs s.months ++ "~" ++ showPVs s.years
+    ++ "~" ++ showPVs s.deploy ++ "~" ++ ";".intercalate (s.time.map showOptInt) ++ "~" ++ showPVs s.cost
+    ++ "~" ++ "+".intercalate (s.groups.map showGroup)
+
+def showWorld (w : List SiteEff) : String := "#".intercalate (w.map showSite)
+
+def finalFiles (st : DrvState) (hasSources : Bool) : Files :=
+  { st.files with sources := if hasSources then some st.srcRows else none }
+
+def step (st : DrvState) (toks : List String) : DrvState × String :=
+  let tb := Generated.Levels.tables
+  match toks with
+  | ["reset"] => ({}, "ok")
+  | ["methods", ms] =>
+    match strList? ms with
+    | some ms => ({ st with methods := ms }, "ok")
+    | none => (st, "bad-op")
+  | ["g", k, v] =>
+    match parseVal v with
+    | some v => ({ st with g := st.g.set k v }, "ok")
+    | none => (st, "bad-op")
+  | ["gm", k, v] =>
+    match parseVal v with
+    | some v => ({ st with gm := st.gm.set k v }, "ok")
+    | none => (st, "bad-op")
+  | ["flags", a, b, c, d] =>
+    match bool? a, bool? b, bool? c, bool? d with
+    | some a, some b, some c, some d =>
+      ({ st with files := { st.files with hasTypes := a, sitesHaveEquip := b, typesHaveEquip := c,
+                                          sources := if d then some [] else none } }, "ok")
+    | _, _, _, _ => (st, "bad-op")
+  | ["type", name, eq, cells] =>
+    match parseEquip eq, parseCells cells with
+    | some eq, some cells =>
+      ({ st with files := { st.files with types := st.files.types ++ [{ name := name, equip := eq, cells := cells }] } }, "ok")
+    | _, _ => (st, "bad-op")
+  | ["site", sid, ty, eq, cells] =>
+    match parseEquip eq, parseCells cells with
+    | some eq, some cells =>
+      ({ st with files := { st.files with sites := st.files.sites ++ [{ sid := sid, stype := ty, equip := eq, cells := cells }] } }, "ok")
+    | _, _ => (st, "bad-op")
+  | ["eq", name, cells] =>
+    match parseCells cells with
+    | some cells =>
+      ({ st with files := { st.files with equipment := st.files.equipment ++ [{ name := name, cells := cells }] } }, "ok")
+    | none => (st, "bad-op")
+  | ["src", comp, sid, rep, cells] =>
+    match bool? rep, parseCells cells with
+    | some rep, some cells =>
+      ({ st with srcRows := st.srcRows ++ [{ comp := comp, sid := sid, rep := rep, cells := cells }] }, "ok")
+    | _, _ => (st, "bad-op")
+  | ["build", picks] =>
+    match natList? picks with
+    | some picks =>
+      let files := finalFiles st st.files.sources.isSome
+      let rej := worldRejects tb st.methods st.g st.gm files picks
+      if rej.isEmpty then (st, showWorld (buildWorld tb st.methods st.g st.gm files picks))
+      else (st, "reject:" ++ ",".intercalate rej)
+    | none => (st, "bad-op")
+  | ["resolve", g, ls] =>
+    match parseVal g, listOf? parseVal ls with
+    | some g, some ls =>
+      (st, showPV (resolve (ls.map (fun v => if v = .nul then none else some v)) g))
+    | _, _ => (st, "bad-op")
+  | ["round", n, d] =>
+    match int? n, nat? d with
+    | some n, some d => if d = 0 then (st, "bad-op") else (st, toString (roundHalfEven ((n : Rat) / (d : Rat))))
+    | _, _ => (st, "bad-op")
+  | ["strip", col] => (st, compType col)
+  | ["unprefix", pre, key] => (st, showBool (hasInfix pre key) ++ " " ++ removeAll pre key)
+  | _ => (st, "bad-op")
+
+def main : IO Unit := runDriver step {}
